@@ -52,7 +52,7 @@ func (h *pinHooks) Call(in *sym.Interp, fr *sym.Frame, site ssa.CallInstruction,
 			} else if rs.Len() > 1 {
 				rt = rs
 			}
-			ev := in.Emit(fr, "opaquecall", site, callee.Name(), args, fr.Mem())
+			ev := in.Emit(fr, "opaquecall", site, callee.Name(), canonArgs(callee, args), fr.Mem())
 			in.Havoc(fr, site, fr.Mem(), args)
 			if rt == nil {
 				return true, nil
